@@ -1,7 +1,7 @@
 (* C07 — refinement never loses or mis-associates data and selects what it documents.
    Statements only; proofs are in Proofs/{IndexSets,GridState,Selection}Proofs.v. *)
 From TV Require Import Common.Prelude Model.IndexSets Model.GridState Model.RuleLocal Model.Selection.
-From TV Require Import Proofs.IndexSetsProofs Proofs.GridStateProofs Proofs.SelectionProofs.
+From TV Require Import Proofs.IndexSetsProofs Proofs.GridStateProofs Proofs.SelectionProofs Proofs.RuleLocalProofs.
 Local Open Scope Z_scope.
 
 Section AnyValues.
@@ -80,6 +80,11 @@ Theorem c07_candidates_fresh : forall d r limits pts (flag : idx -> bool) p, wf 
   In p (classic_candidates r limits pts flag) -> ~ In p pts.
 Proof. exact classic_candidates_fresh. Qed.
 
+(* the hierarchy is consistent: the point a child was generated from is its parent or step-parent (all binary local rules) *)
+Theorem c07_child_knows_its_parent : forall r p k, binary_rule r -> 0 <= p -> (k = 0 \/ k = 1) ->
+  getKid r p k <> -1 -> getParent r (getKid r p k) = p \/ getStepParent r (getKid r p k) = p.
+Proof. exact kid_parent. Qed.
+
 (* non-vacuity: a concrete reachable state and a concrete selection *)
 Example c07_example_state :
   let st0 := mkgs [] [[0;0];[0;1];[1;0]] ([] : list Z) in
@@ -106,3 +111,4 @@ Print Assumptions c07_diff_is_difference.
 Print Assumptions c07_classic_selection.
 Print Assumptions c07_nothing_below_tolerance.
 Print Assumptions c07_candidates_fresh.
+Print Assumptions c07_child_knows_its_parent.
